@@ -34,12 +34,14 @@ type Opts struct {
 	ShrinkConverge    bool
 	Progress          *os.File
 	DeadTargetQueries bool
-	FixedCaps         []int // if set, use these NewWorld args
+	FixedCaps         []int   // if set, use these NewWorld args
+	CapChoices        [][]int // if set, NewWorld args are drawn from these
 	StopOnViolation   bool
 	NoRecordOps       bool
 	GC                *GCMon // C11: finalizer tracking
 	GCEvery           int    // collectability check every n ops
 	ForceGCEvery      int    // runtime.GC
+	RelCacheProcess   bool   // C12: relation lists built with Rel/RelIdx are kept and reused across the cases of the process
 	Matrix            bool   // C14: start every case with the scripted method matrix of tuple (case index mod #tuples)() every n ops
 }
 
@@ -66,6 +68,8 @@ func DrawConfig(r *Rng, o *Opts) Config {
 	var c Config
 	if o.FixedCaps != nil {
 		c.Caps = o.FixedCaps
+	} else if o.CapChoices != nil {
+		c.Caps = o.CapChoices[r.Intn(len(o.CapChoices))]
 	} else {
 		c.Caps = capChoices[r.Intn(len(capChoices))]
 	}
@@ -153,9 +157,14 @@ func RunCase(seed uint64, idx int, p *Profile, o *Opts, st *Stats) (cr *CaseResu
 	r := NewRng(mix(seed, idx))
 	cfg := DrawConfig(r, o)
 	m := NewModel()
-	RelCache = map[string][]ecs.Relation{}
+	if !o.RelCacheProcess || RelCache == nil {
+		// (with RelCacheProcess the world-independent relation lists live as long as the process: a list used with one
+		// world is handed to the worlds of later cases, whose component IDs differ)
+		RelCache = map[string][]ecs.Relation{}
+	}
 	cr = &CaseResult{Seed: seed, Case: idx, Profile: p.Name, Config: cfg.String(), Cov: map[string]int64{}}
 	d := NewDrv("A", cfg, m, st)
+	d.StatsInCb = o.StatsEvery > 0
 	var twin *Drv
 	twinStat := NewStats()
 	switch o.Twin {
